@@ -159,10 +159,44 @@ def _syntactic(case: Case, src_text: str, result_text: str, hook_unpool: bool = 
     return None
 
 
+def _fresh_variables(opt: Any) -> Optional[tuple[str, str]]:
+    """exact check on the traced ex-lining steps (statement i of the input becomes statement i of the output):
+    the variables ngo invents for arithmetic it moves out of atoms / objective terms must be pairwise distinct"""
+    if opt is None:
+        return None
+    for step in opt.trace.steps:
+        if step.name != "exline_arithmetic" or not step.fired:
+            continue
+        before, after = oracle.try_parse(step.before) or [], oracle.try_parse(step.after) or []
+        if len(before) != len(after):
+            continue
+        for sb, sa in zip(before, after):
+            if sa.ast_type not in (ASTType.Rule, ASTType.Minimize) or str(sb) == str(sa):
+                continue
+            known = set(astutil.variables_in(sb))
+            old_lits = {str(x) for x in sb.body}
+            invented = []
+            for lit in sa.body:
+                if str(lit) in old_lits or lit.ast_type != ASTType.Literal or lit.atom.ast_type != ASTType.Comparison:
+                    continue
+                cmp_ = lit.atom
+                if cmp_.term.ast_type == ASTType.Variable and len(cmp_.guards) == 1 and int(cmp_.guards[0].comparison) == 5 and cmp_.term.name not in known:
+                    invented.append(cmp_.term.name)
+            dup = sorted({v for v in invented if invented.count(v) > 1})
+            if dup:
+                return "invented_variable_reused", f"{dup} is assigned twice in: {sa}"
+    return None
+
+
 def evaluate(case: Case, tier: str) -> Outcome:
     """base must pass; variant must pass too"""
     spec = VOC if set(case.traits) <= set(ADD_ONLY_TRAITS) else INOUT
     base = sem_evaluate(case, spec, tier)
+    reused = _fresh_variables(base.opt)
+    if reused is not None:
+        base.status = "fail"
+        base.failure = {"kind": reused[0], "detail": reused[1], "instance": "", "attribution": {"pass": "exline_arithmetic", "before": case.src, "after": base.result_text}}
+        return base
     if base.status == "discard":
         return base
     if base.status == "fail":
